@@ -389,4 +389,203 @@ theorem heartbeatAck_roundtrip (f : Byte) (i : Bytes) (h : i.length + 4 + 4 < 65
   rw [decHeartbeatParam_roundtrip i (by omega)]
   rfl
 
+/-! ### RECONFIG -/
+
+theorem encParam_length_ge (p : Param) : 4 ≤ (encParam p).length := by
+  obtain ⟨v, hv⟩ := encParam_eq p
+  rw [hv, paramHeaderMarshal_length]; omega
+
+theorem reconfig_roundtrip (f : Byte) (a : Param) (b : Option Param) (ha : CodecSpec.wfParam a = true)
+    (hb : ∀ x, b = some x → CodecSpec.wfParam x = true)
+    (hfit : (match b with | none => paramLen a | some b => paramLen a + pad4 (paramLen a) + paramLen b) < 65536) :
+    RoundTrips (.reconfig f a b) := by
+  have hdisp : ∀ v, decBody ctReconfig f v = decReconfig f v := by
+    intro v
+    unfold decBody
+    simp only [ct_data, ct_init, ct_initack, ct_abort, ct_cookieecho, ct_cookieack, ct_hb, ct_hback, ct_idata, ct_sack,
+      ct_reconfig, BitVec.reduceEq, ↓reduceIte, or_self]
+  cases b with
+  | none =>
+    refine ⟨ctReconfig, f, encParam a, rfl, by decide, by simpa [paramLen] using hfit, ?_⟩
+    rw [hdisp]
+    unfold decReconfig
+    have hp := parseParamType_enc a []
+    have hbp := buildParam_roundtrip a [] ha
+    rw [List.append_nil] at hp hbp
+    rw [hp]
+    simp only [ok_bind, hbp]
+    rw [if_neg (by omega)]
+  | some b =>
+    have hb' := hb b rfl
+    simp only [paramLen] at hfit
+    refine ⟨ctReconfig, f, encParam a ++ zeros (pad4 (encParam a).length) ++ encParam b, rfl, by decide,
+      by simp; omega, ?_⟩
+    rw [hdisp]
+    unfold decReconfig
+    have hp := parseParamType_enc a (zeros (pad4 (encParam a).length) ++ encParam b)
+    have hbp := buildParam_roundtrip a (zeros (pad4 (encParam a).length) ++ encParam b) ha
+    rw [← List.append_assoc] at hp hbp
+    rw [hp]
+    simp only [ok_bind, hbp]
+    have hge := encParam_length_ge b
+    rw [if_pos (by simp; omega)]
+    have hs := sliceFrom_append (encParam a ++ zeros (pad4 (encParam a).length)) (encParam b)
+    simp only [List.length_append, zeros_length] at hs
+    rw [hs]
+    have hp2 := parseParamType_enc b []
+    have hbp2 := buildParam_roundtrip b [] hb'
+    rw [List.append_nil] at hp2 hbp2
+    simp only [ok_bind, hp2, hbp2]
+
+/-! ### INIT, INIT-ACK -/
+
+theorem initParamsLoop_done (raw : Bytes) (fuel off : Nat) (rem : Int) (hf : 0 < fuel) (hr : rem ≤ 0) :
+    initParamsLoop raw fuel off rem = .ok ([], []) := by
+  cases fuel with
+  | zero => omega
+  | succ f => unfold initParamsLoop; rw [if_neg (by omega)]
+
+theorem encParamsPadded_length_ge (ps : List Param) : 4 * ps.length ≤ (encParamsPadded ps).length := by
+  induction ps with
+  | nil => simp [encParamsPadded]
+  | cons p ps ih =>
+    cases ps with
+    | nil => have := encParam_length_ge p; simp [encParamsPadded]; omega
+    | cons q qs =>
+      have := encParam_length_ge p
+      simp only [encParamsPadded, List.length_append, List.length_cons, zeros_length] at ih ⊢
+      omega
+
+theorem encParam_length_lt (p : Param) (h : CodecSpec.wfParam p = true) : (encParam p).length < 65536 := by
+  cases p with
+  | heartbeatInfo i => simp only [CodecSpec.wfParam, fits_iff] at h; simp only [encParam, paramHeaderMarshal_length]; omega
+  | stateCookie i => simp only [CodecSpec.wfParam, fits_iff] at h; simp only [encParam, paramHeaderMarshal_length]; omega
+  | random i => simp only [CodecSpec.wfParam, fits_iff] at h; simp only [encParam, paramHeaderMarshal_length]; omega
+  | chunkList i => simp only [CodecSpec.wfParam, fits_iff] at h; simp only [encParam, paramHeaderMarshal_length]; omega
+  | supportedExt i => simp only [CodecSpec.wfParam, fits_iff] at h; simp only [encParam, paramHeaderMarshal_length]; omega
+  | ecnCapable => simp [encParam, paramHeaderMarshal_length]
+  | fwdTsnSupported => simp [encParam, paramHeaderMarshal_length]
+  | zeroChecksum e => simp [encParam, paramHeaderMarshal_length]
+  | reconfigResp a b => simp [encParam, paramHeaderMarshal_length]
+  | reqHmac as =>
+    simp only [CodecSpec.wfParam, fits_iff, Bool.and_eq_true] at h
+    simp only [encParam, paramHeaderMarshal_length, flatten_be16_length]; omega
+  | outReset a b c sids =>
+    simp only [CodecSpec.wfParam, fits_iff] at h
+    simp only [encParam, paramHeaderMarshal_length, List.length_append, be32_length, flatten_be16_length]; omega
+
+/-- one iteration of the INIT parameter loop on `… ++ encParam p ++ tail` -/
+theorem initParamsLoop_step (pre : Bytes) (p : Param) (tail : Bytes) (f : Nat) (rem : Int)
+    (hwf : CodecSpec.wfParam p = true) (hrem : 4 < rem) :
+    initParamsLoop (pre ++ (encParam p ++ tail)) (f + 1) pre.length rem =
+      (initParamsLoop (pre ++ (encParam p ++ tail)) f (pre.length + ((encParam p).length + pad4 (encParam p).length))
+        (rem - (((encParam p).length + pad4 (encParam p).length : Nat) : Int))) >>= fun r => .ok (p :: r.1, r.2) := by
+  rw [initParamsLoop.eq_def]
+  simp only
+  rw [if_pos (by omega), if_pos (by rw [c_initOptionalVarHeaderLength]; omega), sliceFrom_append]
+  obtain ⟨v, hv⟩ := encParam_eq p
+  have hlen : (encParam p).length = 4 + v.length := by rw [hv, paramHeaderMarshal_length]
+  have hvl : v.length + 4 < 65536 := by have := encParam_length_lt p hwf; omega
+  have hh := paramHeader_roundtrip (ptOf p) v tail hvl
+  rw [← hv] at hh
+  simp only [ok_bind, hh, wrap_ok, buildParam_roundtrip p tail hwf, ← hlen]
+
+/-- the parameter loop reads back what `encParamsPadded` wrote, provided the last parameter is
+longer than 4 bytes (the loop stops at `remaining ≤ 4`) -/
+theorem initParamsLoop_roundtrip (pre : Bytes) (ps : List Param) (fuel : Nat) (hf : ps.length < fuel)
+    (hwf : ∀ p ∈ ps, CodecSpec.wfParam p = true)
+    (hlast : ∀ p, ps.getLast? = some p → 4 < (encParam p).length) :
+    initParamsLoop (pre ++ encParamsPadded ps) fuel pre.length ((encParamsPadded ps).length : Int) = .ok (ps, []) := by
+  induction ps generalizing pre fuel with
+  | nil => exact initParamsLoop_done _ _ _ _ (by omega) (by simp [encParamsPadded])
+  | cons p ps ih =>
+    cases fuel with
+    | zero => omega
+    | succ f =>
+      have hp := hwf p (by simp)
+      cases ps with
+      | nil =>
+        have h4 : 4 < (encParam p).length := hlast p rfl
+        have := initParamsLoop_step pre p [] f ((encParam p).length : Int) hp (by omega)
+        simp only [List.append_nil] at this
+        simp only [encParamsPadded]
+        rw [this, initParamsLoop_done _ _ _ _ (by simp at hf; omega) (by omega)]
+        rfl
+      | cons q qs =>
+        have hge := encParam_length_ge p
+        have hge2 := encParamsPadded_length_ge (q :: qs)
+        simp only [List.length_cons] at hge2
+        have hlen : (encParamsPadded (p :: q :: qs)).length =
+            (encParam p).length + pad4 (encParam p).length + (encParamsPadded (q :: qs)).length := by
+          simp only [encParamsPadded, List.length_append, zeros_length]
+        have := initParamsLoop_step pre p (zeros (pad4 (encParam p).length) ++ encParamsPadded (q :: qs)) f
+          ((encParamsPadded (p :: q :: qs)).length : Int) hp (by omega)
+        have henc : encParamsPadded (p :: q :: qs) =
+            encParam p ++ (zeros (pad4 (encParam p).length) ++ encParamsPadded (q :: qs)) := by
+          simp only [encParamsPadded, List.append_assoc]
+        rw [henc] at hlen this ⊢
+        rw [this]
+        have ih' := ih (pre ++ encParam p ++ zeros (pad4 (encParam p).length)) f (by simp at hf ⊢; omega)
+          (fun x hx => hwf x (by simp [hx])) (fun x hx => hlast x (by simpa [List.getLast?_cons_cons] using hx))
+        simp only [List.append_assoc, List.length_append, zeros_length] at ih'
+        have hrem : ((encParam p ++ (zeros (pad4 (encParam p).length) ++ encParamsPadded (q :: qs))).length : Int)
+            - (((encParam p).length + pad4 (encParam p).length : Nat) : Int) = ((encParamsPadded (q :: qs)).length : Int) := by
+          rw [hlen]; omega
+        rw [hrem, ih']
+        rfl
+
+theorem initCommon_roundtrip (c : InitCommon) (hwf : ∀ p ∈ c.params, CodecSpec.wfParam p = true)
+    (hun : c.unrec = []) (hlast : ∀ p, c.params.getLast? = some p → 4 < (encParam p).length) :
+    initCommonUnmarshal (initCommonMarshal c) = .ok c := by
+  obtain ⟨tag, arwnd, nOut, nIn, itsn, ps, us⟩ := c
+  simp only at hwf hun hlast
+  subst hun
+  unfold initCommonUnmarshal initCommonMarshal
+  simp only [List.append_assoc]
+  have e0 : u32At (be32 tag ++ (be32 arwnd ++ (be16 nOut ++ (be16 nIn ++ (be32 itsn ++ encParamsPadded ps))))) 0 = .ok tag := by
+    simp [be32]
+  have e4 : u32At (be32 tag ++ (be32 arwnd ++ (be16 nOut ++ (be16 nIn ++ (be32 itsn ++ encParamsPadded ps))))) 4 = .ok arwnd := by
+    simp [be32]
+  have e8 : u16At (be32 tag ++ (be32 arwnd ++ (be16 nOut ++ (be16 nIn ++ (be32 itsn ++ encParamsPadded ps))))) 8 = .ok nOut := by
+    simp [be32, be16]
+  have e10 : u16At (be32 tag ++ (be32 arwnd ++ (be16 nOut ++ (be16 nIn ++ (be32 itsn ++ encParamsPadded ps))))) 10 = .ok nIn := by
+    simp [be32, be16]
+  have e12 : u32At (be32 tag ++ (be32 arwnd ++ (be16 nOut ++ (be16 nIn ++ (be32 itsn ++ encParamsPadded ps))))) 12 = .ok itsn := by
+    simp [be32, be16]
+  rw [e0, e4, e8, e10, e12]
+  simp only [ok_bind, c_initChunkMinLength]
+  have hge := encParamsPadded_length_ge ps
+  have hl := initParamsLoop_roundtrip (be32 tag ++ be32 arwnd ++ be16 nOut ++ be16 nIn ++ be32 itsn) ps
+    ((be32 tag ++ (be32 arwnd ++ (be16 nOut ++ (be16 nIn ++ (be32 itsn ++ encParamsPadded ps))))).length / 4 + 1)
+    (by simp; omega) hwf hlast
+  simp only [List.append_assoc, List.length_append, be32_length, be16_length] at hl
+  have hrem : ((4 + (4 + (2 + (2 + (4 + (encParamsPadded ps).length)))) : Nat) : Int) - ((16 : Nat) : Int)
+      = ((encParamsPadded ps).length : Int) := by omega
+  simp only [List.length_append, be32_length, be16_length, hrem]
+  rw [show (4 + (4 + (2 + (2 + 4))) : Nat) = 16 from rfl] at hl
+  rw [hl]
+  rfl
+
+theorem init_roundtrip (ack : Bool) (c : InitCommon) (hwf : wfInit c = true) :
+    RoundTrips (if ack then .initAck 0#8 c else .init 0#8 c) := by
+  simp only [wfInit, Bool.and_eq_true, List.all_eq_true, List.isEmpty_iff, fits_iff, paramLen, decide_eq_true_eq] at hwf
+  obtain ⟨⟨⟨hp, hu⟩, hl⟩, hfit⟩ := hwf
+  have hlast : ∀ p, c.params.getLast? = some p → 4 < (encParam p).length := by
+    intro p hpl; rw [hpl] at hl; simpa using hl
+  have hrt := initCommon_roundtrip c hp hu hlast
+  have hlen : 16 ≤ (initCommonMarshal c).length := by simp [initCommonMarshal]; omega
+  cases ack
+  · refine ⟨ctInit, 0#8, initCommonMarshal c, by simp [encChunk], by decide, by omega, ?_⟩
+    unfold decBody
+    simp only [ct_init, ↓reduceIte]
+    unfold decInit
+    rw [if_neg (by rw [c_initChunkMinLength]; omega)]
+    simp [hrt]
+  · refine ⟨ctInitAck, 0#8, initCommonMarshal c, by simp [encChunk], by decide, by omega, ?_⟩
+    unfold decBody
+    simp only [ct_init, ct_initack, BitVec.reduceEq, ↓reduceIte]
+    unfold decInit
+    rw [if_neg (by rw [c_initChunkMinLength]; omega)]
+    simp [hrt]
+
 end Codec
